@@ -39,6 +39,8 @@ def show(v, ty, recs=None):
         return "True" if v else "False"
     if ty == "Unit":
         return "None"
+    if ty == "ω":                # the world of a callback parameter: the self-test instantiates it with a log of (id, clock)
+        return show(v, ("L", ("T", "Int", "Int")))
     if ty[0] == "L":
         return "[" + " ".join(show(x, ty[1]) for x in v) + "]"
     if ty[0] == "O":
@@ -416,7 +418,66 @@ def _devs_cases():
     def gen_run_for(rng):
         return {"self": {"time": rng.choice([0, 0, 512, 1024, rng.randrange(10**5)])}, "time_delta": rng.choice([0, 1, 512, 1024, -3, rng.randrange(10**4)])}
 
-    return {"Simulator.run_for": (gen_run_for, call_run_for), "EventList.peak_ahead": (gen_peek, call_peek), "SimulationEvent.CANCELED": (lambda rng: {"self": ev(rng, 0)}, lambda a: real(a["self"]).CANCELED),
+    def gen_run_next(rng):
+        evs, _ = events(rng)
+        return {"self": {"time": rng.choice([0, 0, 512, 1024, 4096]), "model": rng.choice([None, 1, 1, 1, 7]), "event_list": {"_events": evs}},
+                "fuel": len(evs) + 1}
+
+    def call_run_next(a):
+        """the real `Simulator.run_next_event` on a real DEVSimulator whose events record their `execute()`"""
+        from mesa.experimental.devs.simulator import DEVSimulator
+        sim, log = DEVSimulator(), []
+        sim.time = a["self"]["time"]
+        sim.model = None if a["self"]["model"] is None else object()
+        sim.event_list._events = [real(d) for d in a["self"]["event_list"]["_events"]]
+        for e in sim.event_list._events:
+            e.execute = (lambda e=e: log.append(back(e)))
+        try:
+            r = sim.run_next_event()
+        except Exception as e:       # noqa: BLE001
+            r = map_exc(e)
+        return (r, list(log), sim.time, [back(e) for e in sim.event_list._events])
+
+    # run_until: the callback parameter is instantiated, on both sides, with one fixed re-entrant callable: it logs (id, clock),
+    # raises ValueError for ids ≡ 3 (mod 7), and an even id < 100 schedules a further event (id + 100) through add_event
+    LEAN_CB = ("(List (Int × Int))", "(fun st e => let w := st.2.2 ++ [((e.id : Int), st.1)]; "
+               "if e.id % 7 == 3 then (.error Py.Err.Value, (st.1, st.2.1, w)) "
+               "else if e.id % 2 == 0 && e.id < 100 then (.ok (), (st.1, add_event ⟨st.2.1⟩ { e with id := e.id + 100, "
+               "time := e.time + 512 * ((e.id % 3 : Nat) : Int), prio := 5 }, w)) else (.ok (), (st.1, st.2.1, w)))", "[]")
+
+    def gen_run_until(rng):
+        a = gen_run_next(rng)
+        a["end_time"] = rng.choice([-1, 0, 512, 1024, 2048, 2048, 5000])
+        a["fuel"] = 2 * len(a["self"]["event_list"]["_events"]) + 3
+        a["#lean_extra"] = list(LEAN_CB)
+        return a
+
+    def call_run_until(a):
+        from mesa.experimental.devs.simulator import DEVSimulator
+        sim, log = DEVSimulator(), []
+        sim.time = a["self"]["time"]
+        sim.model = None if a["self"]["model"] is None else object()
+
+        def arm(e):
+            def cb():
+                d = back(e)
+                log.append((d["unique_id"], sim.time))
+                if d["unique_id"] % 7 == 3:
+                    raise ValueError("callable raises")
+                if d["unique_id"] % 2 == 0 and d["unique_id"] < 100:
+                    sim.event_list.add_event(arm(real({"time": d["time"] + 512 * (d["unique_id"] % 3), "priority": 5,
+                                                       "unique_id": d["unique_id"] + 100, "_canceled": False})))
+            e.execute = cb
+            return e
+
+        sim.event_list._events = [arm(real(d)) for d in a["self"]["event_list"]["_events"]]
+        try:
+            r = sim.run_until(a["end_time"])
+        except Exception as e:       # noqa: BLE001
+            r = map_exc(e)
+        return (r, sim.time, [back(e) for e in sim.event_list._events], list(log))
+
+    return {"Simulator.run_until": (gen_run_until, call_run_until), "Simulator.run_next_event": (gen_run_next, call_run_next), "Simulator.run_for": (gen_run_for, call_run_for), "EventList.peak_ahead": (gen_peek, call_peek), "SimulationEvent.CANCELED": (lambda rng: {"self": ev(rng, 0)}, lambda a: real(a["self"]).CANCELED),
             "SimulationEvent.__lt__": (gen_pair, lambda a: real(a["self"]) < real(a["other"])),
             "EventList.add_event": (gen_el, call_add), "EventList.pop_event": (gen_el, call_pop),
             "EventList.__len__": (gen_el, lambda a: len(elist(a))), "EventList.is_empty": (gen_el, lambda a: elist(a).is_empty())}
@@ -573,7 +634,7 @@ def run(ctx, prop):
                 except Exception as e:       # noqa: BLE001 — mapped to the small error enum, like the translation
                     want = map_exc(e)
                 args = ([lit(a["self"], ("R", fn.self_rec), recs)] if fn.self_rec else []) + \
-                       [lit(a[p], t, recs) for p, t in _ordered_params(node, fn)] + ([str(a["fuel"])] if fn.fuel else [])
+                       [lit(a[p], t, recs) for p, t in _ordered_params(node, fn)] + a.get("#lean_extra", []) + ([str(a["fuel"])] if fn.fuel else [])
                 jobs.append((fn, a, show(want, rty), f"#eval IO.println (Py.Show.show_ ({fn.name} {' '.join(args)}))"))
         if not jobs:
             continue
